@@ -30,6 +30,7 @@ RULE = (
     "mapping, a filter, an added condition, a multi-flag regular expression and a multi-key error."
 )
 RULE += (" The corpus is converted with the stock test backend and with the verification backend (in-expressions, not-equals, correlation typing / fields / normalisation templates); it contains rule and correlation fields lists, a strict-mapping pipeline with several unmapped fields and a filter whose condition names an undefined detection.")
+RULE += (" Correlation group-by lists contain fields that a one-to-many mapping maps onto names already in the list.")
 ASSUMPTIONS = [
     "hash seeds, random seeds and process starts are sampled, not enumerated",
     "the two validators that fetch data over the network are left out",
@@ -69,6 +70,9 @@ SPECIAL_DOCS = [
     {"title": "filter undefined detection", "logsource": {"category": "test"}, "filter": {"rules": ["them_rule_alias_unused"], "fa": {"f": "noise"}, "condition": "not nothere_x"}},
     {"title": "corr temporal", "name": "corr1", "correlation": {"type": "temporal", "rules": ["base1", "base2"], "timespan": "5m", "group-by": ["usr"],
                                                                  "aliases": {"usr": {"base1": "user", "base2": "account"}}}},
+    # group-by lists whose fields map one-to-many onto names that the list already contains / that map again
+    {"title": "corr group-by overlap", "correlation": {"type": "event_count", "rules": ["base1"], "timespan": "5m", "group-by": ["m2", "f", "g1", "g", "x.y", "xa"], "condition": {"gte": 2}}},
+    {"title": "corr value count overlap", "correlation": {"type": "value_count", "rules": ["base1", "base2"], "timespan": "5m", "group-by": ["f", "m3", "g", "f"], "condition": {"gte": 2, "field": "Image"}}},
     {"title": "corr extended", "fields": ["epsilon", "alpha"], "correlation": {"type": "temporal_ordered", "rules": ["base1", "base2"], "timespan": "1h", "condition": "base1 and not base2"}},
     {"title": "corr ext no rules list", "correlation": {"type": "temporal", "timespan": "1h", "condition": "(base2 and base1) or (base2 and them_rule) or base1 or base2"}},
     {"title": "them", "name": "them_rule_alias_unused", "logsource": {"category": "test"}, "detection": {"s": {"q": 1}, "condition": "s"}},
